@@ -69,7 +69,10 @@ def cell_spec(draw):
     # arms: start from a permutation of all names, then perturb
     order = draw(st.permutations(names))
     arms = list(order)
+    style = draw(st.sampled_from(["plain", "plain", "same-name-twice", "nested-same-name", "default-uses-arg"]))
     mutation = draw(st.sampled_from(["none", "none", "none", "drop", "dup", "foreign", "drop+default", "default", "dup+default"]))
+    if style == "default-uses-arg":
+        mutation = draw(st.sampled_from(["drop+default", "default"]))
     if "drop" in mutation and len(arms) > 0:
         arms.pop(draw(st.integers(0, len(arms) - 1)))
     if "dup" in mutation and arms:
@@ -80,6 +83,8 @@ def cell_spec(draw):
     spec["default"] = "default" in mutation
     spec["qualified"] = [draw(st.booleans()) for _ in arms]
     spec["mutation"] = mutation
+    # variations of how the argument is named and used
+    spec["style"] = style
     return spec
 
 
@@ -135,14 +140,25 @@ def make_cell(i, spec):
         decls.append(f"{T} :: distinct {base};")
     else:
         decls.append(f"{T} :: {base};") if "enum" not in kind else decls.append(f"{T} :: {base};")
+    style = spec.get("style", "plain")
+    arg = "v" if style == "same-name-twice" else "a"
     arm_src = []
     for name, q in zip(spec["arms"], spec["qualified"]):
         p = payload_of.get(name)
-        pr = payload_print(p, "a") if name != "foreign" else ""
+        pr = payload_print(p, arg) if name != "foreign" else ""
+        if style == "nested-same-name" and name != "foreign":
+            # an inner switch that binds the same name; afterwards the outer argument must be visible again
+            pr = pr + f' switch {arg} in inner_opt {{ i32 => {{ printf("%ld\\n", i64.({arg})); }}, nil => {{ puts("inner-nil"); }}, }}; ' + pr
         arm_src.append(f"        {pattern(name, q)} => {{ puts(\"{name}\"); {pr} }},")
     if spec["default"]:
-        arm_src.append('        _ => { puts("D"); },')
-    decls.append(f"sw{i} :: (v: {T}) {{\n    switch a in v {{\n" + "\n".join(arm_src) + "\n    };\n}")
+        use = f" dcopy : {T} = {arg};" if style == "default-uses-arg" else ""
+        if style == "default-uses-arg" and kind == "opt":
+            # the default arm receives the whole value: look at it
+            use = f' printf("%ld\\n", i64.(#is_variant({arg}, nil)));'
+        arm_src.append(f'        _ => {{ puts("D");{use} }},')
+    sw = f"    switch {arg} in v {{\n" + "\n".join(arm_src) + "\n    };\n"
+    pre = "    inner_opt : ?i32 = 77;\n" if style == "nested-same-name" else ""
+    decls.append(f"sw{i} :: (v: {T}) {{\n{pre}{sw}{sw if style == 'same-name-twice' else ''}}}")
     # acceptance rule
     named = [a for a in spec["arms"]]
     ok = "foreign" not in named and len(set(named)) == len(named) and (set(named) == set(names) or spec["default"])
@@ -162,12 +178,17 @@ def make_cell(i, spec):
         else:
             body.append(f"sw{i}({conv});")
         if name in named:
-            out += f"{name}\n" + payload_expected(payload_of[name], k)
+            one = f"{name}\n" + payload_expected(payload_of[name], k)
+            if style == "nested-same-name":
+                one += "77\n" + payload_expected(payload_of[name], k)
         else:
-            out += "D\n"
+            one = "D\n"
+            if style == "default-uses-arg" and kind == "opt":
+                one += "1\n" if name == "nil" else "0\n"
+        out += one * (2 if style == "same-name-twice" else 1)
     return {
         "decls": decls, "body": body, "expect": "either" if (ok and redundant_default) else ("accept" if ok else "reject"), "out": out if ok else None,
-        "key": f"C11:{kind}:{spec['mutation']}", "cls": f"{kind}.{spec['mutation']}",
+        "key": f"C11:{kind}:{spec['mutation']}" + ("" if style == "plain" else ":" + style), "cls": f"{kind}.{spec['mutation']}",
         "desc": f"switch over {kind} {base} with arms {list(zip(spec['arms'], spec['qualified']))} default={spec['default']}", "spec": spec,
     }
 
